@@ -14,7 +14,10 @@
       only the documented pair (timestamp, subsec_nanos = f) and the sub-second quotients are judged;
     - panicking variants: a value must be the right one; refusing by panic is only allowed where the
       fallible variant must refuse;
-    - SystemTime: the instant +-(secs * 10^9 + nanos) relative to UNIX_EPOCH is preserved. *)
+    - SystemTime: the instant +-(secs * 10^9 + nanos) relative to UNIX_EPOCH is preserved; converting a
+      leap-second value to a SystemTime must give an instant inside that leap second (from the last
+      nanosecond of the second it is attached to up to, excluding, two seconds after the start of that
+      second), never a panic. *)
 From Coq Require Import ZArith List Bool String.
 From V Require Import Base.Int Base.IO Spec.Gregorian.
 Import ListNotations.
@@ -172,10 +175,27 @@ Definition j_tosys (args : list val) (out : val) : verdict :=
   | [VTup [y; o; s; f; VInt off]] =>
       match dec_dt [y; o; s; f] with
       | Some (dn, s, f) =>
-          if off_ok off && (f <? G) then
-            let t := unix_nanos dn s f in
-            let a := Z.abs t in
-            judge_eq (VTup [val_of_bool (t <? 0); VInt (a / G); VInt (a mod G)]) out
+          if off_ok off then
+            if f <? G then
+              let t := unix_nanos dn s f in
+              let a := Z.abs t in
+              judge_eq (VTup [val_of_bool (t <? 0); VInt (a / G); VInt (a mod G)]) out
+            else
+              (* a leap-second value (G <= f < 2G) has no unique instant: "this second plus f
+                 nanoseconds" (what the accessors pair (timestamp, subsec_nanos) denotes) or any
+                 clamp inside the leap second are accepted, i.e. a well-formed (sign, secs, nanos)
+                 triple whose instant r lies in [t0 + G - 1, t0 + 2G), t0 = the start of the
+                 second; anything else (a panic included) is not a preserved instant *)
+              let t0 := unix_nanos dn s 0 in
+              match out with
+              | VTup [VInt b; VInt secs; VInt nanos] =>
+                  if ((b =? 0) || (b =? 1)) && (0 <=? secs) && (0 <=? nanos) && (nanos <? G) then
+                    let r := (if b =? 1 then -1 else 1) * (secs * G + nanos) in
+                    if (t0 + G - 1 <=? r) && (r <? t0 + 2 * G) then JOk
+                    else JBad B"leap-second-value:instant-outside-the-leap-second"
+                  else JBad B"leap-second-value:result-not-a-well-formed-triple"
+              | _ => JBad B"leap-second-value:result-of-unexpected-shape"
+              end
           else JSkip
       | None => JSkip
       end
